@@ -45,6 +45,15 @@ Proof.
     destruct (Nat.eqb_spec y x); [congruence|]. reflexivity.
 Qed.
 
+Lemma NoDup_app_intro {A} (l1 l2 : list A) :
+  NoDup l1 -> NoDup l2 -> (forall x, In x l1 -> In x l2 -> False) -> NoDup (l1 ++ l2).
+Proof.
+  induction l1 as [|a r IH]; cbn; intros H1 H2 Hd; [exact H2|]. inversion H1; subst.
+  constructor.
+  - rewrite in_app_iff. intros [H|H]; [contradiction|]. exact (Hd a (or_introl eq_refl) H).
+  - apply IH; auto. intros x Hx. apply Hd. now right.
+Qed.
+
 Section W.
   Context {Op Meta : Type}.
   Notation hugr := (hugr Op Meta).
@@ -98,9 +107,10 @@ Section W.
     intros (Hn & _). unfold a_live. rewrite <- Hn. destruct (get_node h n); cbn; split; congruence.
   Qed.
 
-  (* ---------------------------------------------------------------- the free-index oracle
-     [prefer pick h] only permutes the list of free indices: every query, the invariant and the representation
-     relation are insensitive to it, so every statement below holds for EVERY choice of free index *)
+  (* ---------------------------------------------------------------- the index oracle
+     [prefer pick h] permutes the list of free indices, or grows the table by free slots up to the chosen index:
+     every query, the invariant and the representation relation are insensitive to it, so every statement below
+     holds for EVERY choice of index *)
   Lemma pick_first_spec (f : nid) (fr : list nid) : NoDup fr ->
     NoDup (pick_first f fr) /\ forall x, In x (pick_first f fr) <-> In x fr.
   Proof.
@@ -111,39 +121,76 @@ Section W.
     - intros x. cbn [In]. rewrite filter_In. destruct (Nat.eqb_spec x f) as [->|Hne]; cbn; [tauto|].
       split; [intros [E|[H _]]; [congruence|assumption]|intros H; right; split; [assumption|reflexivity]].
   Qed.
-  Lemma prefer_nodes pick (h : hugr) : nodes (prefer pick h) = nodes h.
-  Proof. destruct pick; reflexivity. Qed.
   Lemma prefer_links pick (h : hugr) : links (prefer pick h) = links h.
-  Proof. destruct pick; reflexivity. Qed.
+  Proof. destruct pick as [f|]; [|reflexivity]. unfold prefer. now destruct (Nat.ltb f (length (nodes h))). Qed.
   Lemma prefer_root pick (h : hugr) : root (prefer pick h) = root h.
-  Proof. destruct pick; reflexivity. Qed.
-  Lemma prefer_get pick (h : hugr) n : get_node (prefer pick h) n = get_node h n.
-  Proof. destruct pick; reflexivity. Qed.
-  Lemma prefer_free_nil pick (h : hugr) : free h = [] -> prefer pick h = h.
-  Proof. destruct pick as [f|]; [|reflexivity]. destruct h as [ns ls fr rt]. cbn. intros ->. reflexivity. Qed.
-  Lemma prefer_free_length pick (h : hugr) : NoDup (free h) -> length (free (prefer pick h)) = length (free h).
+  Proof. destruct pick as [f|]; [|reflexivity]. unfold prefer. now destruct (Nat.ltb f (length (nodes h))). Qed.
+  Lemma nth_error_grow {A} (l : list (option A)) k n :
+    match nth_error (l ++ repeat None k) n with Some (Some d) => Some d | _ => None end =
+    match nth_error l n with Some (Some d) => Some d | _ => None end.
   Proof.
-    intros Hnd. destruct pick as [f|]; [|reflexivity]. cbn [prefer free].
-    destruct (pick_first_spec f (free h) Hnd) as [Hnd' Hin].
-    apply Nat.le_antisymm; apply NoDup_incl_length; try assumption; intros x Hx; now apply Hin.
+    destruct (Nat.lt_ge_cases n (length l)) as [Hlt|Hge].
+    - now rewrite nth_error_app1.
+    - rewrite nth_error_app2 by assumption.
+      assert (nth_error l n = None) as -> by now apply nth_error_None.
+      destruct (nth_error (repeat None k) (n - length l)) as [x|] eqn:E; [|reflexivity].
+      apply nth_error_In, repeat_spec in E. now subst x.
+  Qed.
+  Lemma prefer_get pick (h : hugr) n : get_node (prefer pick h) n = get_node h n.
+  Proof.
+    destruct pick as [f|]; [|reflexivity]. unfold prefer. destruct (Nat.ltb f (length (nodes h))); [reflexivity|].
+    unfold get_node. cbn [nodes]. apply nth_error_grow.
+  Qed.
+  Lemma prefer_length pick (h : hugr) : length (nodes h) <= length (nodes (prefer pick h)).
+  Proof.
+    destruct pick as [f|]; [|reflexivity]. unfold prefer. destruct (Nat.ltb f (length (nodes h))); [reflexivity|].
+    cbn [nodes]. rewrite app_length. lia.
   Qed.
   Lemma FreeOK_prefer pick (h : hugr) : FreeOK h -> FreeOK (prefer pick h).
   Proof.
-    destruct pick as [f|]; [|auto]. intros (Hnd & Hfree). destruct (pick_first_spec f (free h) Hnd) as [Hnd' Hin].
-    split; cbn [prefer free nodes]; [exact Hnd'|]. intros n. rewrite Hin. exact (Hfree n).
+    destruct pick as [f|]; [|auto]. intros (Hnd & Hfree). unfold prefer.
+    destruct (Nat.ltb_spec f (length (nodes h))) as [Hlt|Hge].
+    - destruct (pick_first_spec f (free h) Hnd) as [Hnd' Hin].
+      split; cbn [free nodes]; [exact Hnd'|]. intros n. rewrite Hin. exact (Hfree n).
+    - set (L := length (nodes h)). set (k := S f - L).
+      set (h' := {| nodes := nodes h ++ repeat None k; links := links h; free := rev (seq L k) ++ free h; root := root h |}).
+      assert (Hg : forall n, get_node h' n = get_node h n) by (intros n; unfold get_node; cbn [nodes h']; apply nth_error_grow).
+      split; cbn [free nodes h'].
+      + apply NoDup_app_intro.
+        * apply NoDup_rev, seq_NoDup.
+        * exact Hnd.
+        * intros x Hx Hx'. apply in_rev, in_seq in Hx. apply Hfree in Hx'. fold L in Hx'. lia.
+      + intros n. rewrite in_app_iff, <- in_rev, in_seq, app_length, repeat_length. fold L. fold h'. rewrite Hg, Hfree. fold L.
+        split.
+        * intros [H|[H1 H2]]; [|split; [lia|exact H2]]. split; [lia|].
+          unfold get_node. assert (nth_error (nodes h) n = None) as -> by (apply nth_error_None; fold L; lia). reflexivity.
+        * intros [H1 H2]. destruct (Nat.lt_ge_cases n L); [right; tauto|left; lia].
   Qed.
   Lemma Inv_prefer pick (h : hugr) : Inv h -> Inv (prefer pick h).
   Proof.
-    destruct pick as [f|]; [|auto]. intros (HL & HF & HC & HT).
-    split; [exact HL|]. split; [exact (FreeOK_prefer (Some f) h HF)|]. split; [exact HC|exact HT].
+    intros (HL & HF & HC & HT).
+    split; [now rewrite prefer_links|]. split; [exact (FreeOK_prefer pick h HF)|]. split.
+    - intros s t. rewrite prefer_links, !prefer_get. exact (HC s t).
+    - destruct HT as (H1 & H2 & H3 & H4). unfold Tree. rewrite prefer_root.
+      repeat split; try (setoid_rewrite prefer_get); assumption.
   Qed.
   Lemma Rep_prefer pick (h : hugr) g : Rep h g -> Rep (prefer pick h) g.
-  Proof. destruct pick; auto. Qed.
-  (* an admissible choice is the index the next add_node takes *)
-  Lemma prefer_head f (h : hugr) : In f (free h) -> exists r, free (prefer (Some f) h) = f :: r.
   Proof.
-    intros Hin. cbn [prefer free]. unfold pick_first.
-    destruct (mem_spec Nat.eqb Nat.eqb_spec f (free h)); [eauto|contradiction].
+    intros (H1 & H2 & H3 & H4). split; [intros n; rewrite prefer_get; apply H1|].
+    split; [exact H2|]. split; [now rewrite prefer_links|now rewrite prefer_root].
+  Qed.
+  (* an admissible choice is the index the next add_node takes *)
+  Lemma prefer_head f (h : hugr) : In f (free h) \/ length (nodes h) <= f -> exists r, free (prefer (Some f) h) = f :: r.
+  Proof.
+    intros Hin. unfold prefer. destruct (Nat.ltb_spec f (length (nodes h))) as [Hlt|Hge]; cbn [free].
+    - destruct Hin as [Hin|Hin]; [|lia]. unfold pick_first.
+      destruct (mem_spec Nat.eqb Nat.eqb_spec f (free h)); [eauto|contradiction].
+    - replace (S f - length (nodes h)) with (S (f - length (nodes h))) by lia.
+      rewrite seq_S, rev_app_distr. cbn [rev app]. replace (length (nodes h) + (f - length (nodes h))) with f by lia. eauto.
+  Qed.
+  Lemma dead_is_admissible f (h : hugr) : FreeOK h -> get_node h f = None -> In f (free h) \/ length (nodes h) <= f.
+  Proof.
+    intros (_ & Hfree) Hd. destruct (Nat.lt_ge_cases f (length (nodes h))); [left; apply Hfree; tauto|now right].
   Qed.
 
   (* pointwise effect of a_upd *)
@@ -719,7 +766,7 @@ Section W.
     exact (bstep_refines _ g c h' rt r (Inv_prefer _ h HI) (Rep_prefer _ h g HR)).
   Qed.
   (* the admissible choice is honoured: the new node gets the index the oracle names *)
-  Theorem add_node_takes_the_choice (h : hugr) f o p k m : In f (free h) ->
+  Theorem add_node_takes_the_choice (h : hugr) f o p k m : In f (free h) \/ length (nodes h) <= f ->
     snd (fst (add_node_raw (prefer (Some f) h) o p k m)) = f.
   Proof.
     intros Hin. destruct (prefer_head f h Hin) as (r & E). unfold add_node_raw. rewrite E.
@@ -727,6 +774,11 @@ Section W.
     - destruct (get_node _ p); [|reflexivity]. destruct k; [|reflexivity]. destruct (get_node _ f); reflexivity.
     - destruct k; [|reflexivity]. destruct (get_node _ f); reflexivity.
   Qed.
+  (* under the store invariant ANY index that is not live is admissible: a freed one, the next fresh one, or one
+     further beyond the end of the table *)
+  Theorem add_node_takes_any_dead_index (h : hugr) f o p k m : FreeOK h -> get_node h f = None ->
+    snd (fst (add_node_raw (prefer (Some f) h) o p k m)) = f.
+  Proof. intros HF Hd. apply add_node_takes_the_choice. now apply dead_is_admissible. Qed.
   (* the history as the specification sees it, choices given: every command with the value the model returned *)
   Fixpoint trace_at (h : hugr) (cs : list (bcmd Op Meta * ret)) : list (bcmd Op Meta * ret) :=
     match cs with
